@@ -82,6 +82,24 @@ def cases(tier, seed):
         nsteps = len(corp[name]['steps'])
         for k in range(nsteps + 1):
             yield dict(convo=name, cut=None, ending=None, kill=k, seed=seed)
+    # a long pipelined turn to a user that does not consume: cuts only behind every 8th PDU,
+    # plus a stop request after every step
+    name = 'A18_flood_deaf_user_aborts'
+    acc_ = 0
+    k_ = 0
+    for st_ in corp[name]['steps']:
+        if st_[0] in ('peer', 'peer+fin'):
+            for pdu_ in st_[1]:
+                acc_ += len(pdu_)
+                k_ += 1
+                if k_ % 8 == 1:
+                    for e in (endings if tier == 'thorough' else [endings[(k_ + seed) % 4]]):
+                        yield dict(convo=name, cut=acc_, ending=e, kill=None, dribble=False,
+                                   seed=seed)
+    yield dict(convo=name, cut=None, ending='silence', kill=None, seed=seed)
+    yield dict(convo=name, cut=None, ending='fin', kill=None, seed=seed)
+    for k in range(len(corp[name]['steps']) + 1):
+        yield dict(convo=name, cut=None, ending=None, kill=k, seed=seed)
     n = 300 if tier == 'quick' else 6000
     for i in range(n):
         name = rnd.choice(NAMES)
@@ -260,7 +278,10 @@ def run_case(case):
                 elif not rig.prov_sock.closed:
                     v('connection-not-closed ending=%s from=%s' % (ending, state_at_cut))
                 indicated = any(getattr(x, 'pdu_type', None) == 1 for x in user.seen) or associated
-                told = any(getattr(x, 'pdu_type', None) in (3, 5, 6, 7) for x in user.seen)
+                # (told = handed to the user or waiting in its queue: a user that has stopped
+                # taking indications has still been told)
+                told = any(getattr(x, 'pdu_type', None) in (3, 5, 6, 7)
+                           for x in list(user.seen) + list(rig.provider.to_service_user.items))
                 if indicated and not told and not user_ended and not viol:
                     v('user-not-told ending=%s from=%s' % (ending, state_at_cut),
                       'indications %r' % [describe_indication(x) for x in user.seen])
